@@ -16,8 +16,6 @@ NA = {
     "C14": "limb-slice division kernels: value contracts under documented preconditions, slice indices depend on run-time "
            "lengths and quotient digits; the reciprocal table is not a necessary condition (measured: single-entry "
            "perturbations are absorbed by the Newton steps)",
-    "C15": "limb-slice multiply/add/shift/compare kernels: value contracts over all lengths and contents; nothing but "
-           "arithmetic to decide",
 }
 
 ALL = ["C%02d" % i for i in range(1, 21)]
@@ -35,6 +33,7 @@ TECHNIQUE = {
     "C09": "exact finite-partition abstract evaluation of the digit closure, constant tables from compiler-evaluated consts, MIR dataflow",
     "C10": "MIR dominance: zero-modulus edges, non-zero guard predicates over the call graph, typestate",
     "C13": "MIR dataflow: per-configuration literal-fit and return-discriminant summaries, precondition predicates checked at call sites",
+    "C15": "MIR dataflow over the limb kernels: panic-site inventory with interval abstract interpretation of slice lengths and indices (release and overflow-checked MIR), flow-sensitive liveness of carry words, return-interval extremes",
     "C16": "cross-checking sibling encoder/decoder implementations: byte-order class, registry set equality, interval-derived mode tables of writer and reader, interval of hand-built RLP header bytes, const evaluation",
     "C17": "interprocedural panic-site inventory over MIR (release and overflow-checked) with interval abstract interpretation and guard dominance; must-pass-through checks",
     "C18": "MIR backward slices: rounding-free path to to_bits, count of inexact steps on the path to the float result, classification order by dominance",
